@@ -126,6 +126,52 @@ theorem spec_lag_reachable (W : World U) (g : Blk) (archive : Bool) (hgU : U g.i
 theorem spec_of_spec_lag {s : St} (h : SpecLag s) (h1 : s.hhead = s.head) (h2 : s.fhead = s.head) : SpecInv s :=
   specInv_of_specLag h h1 h2
 
+/-! ### queries are pure
+
+The accessors (`GetBlockByHash`, `GetHeaderByHash`, `GetBody`, `GetTdByHash`, `HasBlock`, `HasHeader`, …) are functions of the
+database in the model: asking for a block is not a step.  Stated explicitly for histories with queries interleaved, because
+the Go accessors go through caches (`HeaderChain.numberCache`): the harness asks by hash for nodes BEFORE they are imported and
+requires the same answers as the model, i.e. as if it had never asked. -/
+
+/-- an operation, or a by-hash query for the block with hash `k` -/
+inductive QOp
+  | op (o : Op)
+  | query (k : Nat)
+
+/-- what the by-hash accessors return for the hash `k`: header and body, total difficulty, receipts -/
+def answer (s : St) (k : Nat) : Option Blk × Option Nat × Bool := (s.store k, s.td k, s.receipts k)
+
+def qstep (s : St) : QOp → St
+  | .op o => (step s o).st
+  | .query _ => s
+
+def qrun (s : St) : List QOp → St
+  | [] => s
+  | o :: os => qrun (qstep s o) os
+
+def eraseQueries : List QOp → List Op
+  | [] => []
+  | .op o :: os => o :: eraseQueries os
+  | .query _ :: os => eraseQueries os
+
+/-- a query leaves the database (hence every later answer and every later import) unchanged -/
+theorem query_pure (s : St) (k : Nat) : qstep s (.query k) = s := rfl
+
+/-- the database after a history with queries is the database after the history without them: what an accessor returns
+    after an import does not depend on what was asked before -/
+theorem queries_erase : ∀ (ops : List QOp) (s : St), qrun s ops = run s (eraseQueries ops) := by
+  intro ops
+  induction ops with
+  | nil => intro s; rfl
+  | cons o os ih =>
+    intro s
+    cases o with
+    | op o => exact ih _
+    | query k => exact ih _
+
+theorem answers_independent_of_queries (ops : List QOp) (s : St) (k : Nat) :
+    answer (qrun s ops) k = answer (run s (eraseQueries ops)) k := by rw [queries_erase]
+
 /-! ### non-vacuity: a concrete tree with a longer-lighter and a shorter-heavier branch, the same transaction on both -/
 
 def g : Blk := ⟨0, 0, 0, 100, []⟩
